@@ -25,7 +25,7 @@ BOUNDS = ('all argument values in the documented domain (non-NaN for min/max/cla
           'operation table in evidence; every ISA level in both tiers (builds with textually identical IR for a wrapper share one verdict)')
 OUTSIDE = ('magnitude of the rounding difference of multi-term expressions (only rounding-erased equality and bit-precise equality of the discontinuous decisions are decided); lowp reciprocal/rsqrt accuracy is '
            'decided on rounding-erased terms under the Intel SDM contract (|rel. error| <= 1.5*2^-12, positive normal argument), not for the final rounding; AVX-512 / NEON; NaN payloads; '
-           'GLM_FORCE_QUAT_DATA_WXYZ x SIMD: quaternion operations at SSE2 and AVX2+FMA in quick, every level in thorough; the aligned_mediump / aligned_lowp instances of operations without a precision-specific specialisation are covered in the thorough tier only; '
+           'GLM_FORCE_QUAT_DATA_WXYZ x SIMD: quaternion operations at SSE2 and AVX2+FMA in quick, every level in thorough; aligned_lowp vec3 and aligned_mediump vec3 instances: lowp vec3 in the thorough tier only, mediump vec3 not instantiated (same templates as highp); '
            'kernels of glm/simd/*.h that no glm operation calls are compared with the operation they are named after as optional (non-mandatory) obligations')
 ASSUMPTIONS = ['x86 intrinsic semantics per Intel SDM as modelled in engine/models.py:x86', 'libm transcendentals are shared uninterpreted functions',
                'the LLVM IR of a wrapper determines its behaviour: two ISA builds with textually identical IR for a wrapper (attributes and metadata stripped) share one verdict']
@@ -111,11 +111,8 @@ for s_, T in (('f', 'float'), ('d', 'double')):
 QNAMES = [f for f in P.fns if f.startswith('q')]
 # precision-qualifier instances: lowp may use the hardware approximations (sqrt, /), mediump must not
 vec_ops(4, 'QL', '_lp', 'quick')
-vec_ops(4, 'QM', '_mp', 'thorough')
+vec_ops(4, 'QM', '_mp', 'quick')
 vec_ops(3, 'QL', '_lp', 'thorough')
-for n_ in list(P.fns):        # of the lowp instances only the ones with a precision specific SIMD path stay in the quick tier
-    if n_.endswith('_lp') and SPEC[n_]['cls'] not in ('lowpdiv', 'lowpsqrt') and not n_.startswith(('norm4', 'len4')): SPEC[n_]['tier'] = 'thorough'
-    if n_.endswith('_lp') and n_.endswith('_d_lp'): SPEC[n_]['tier'] = 'thorough'
 
 # kernels of glm/simd/*.h that no glm operation reaches: called directly in the SIMD build, compared with the operation they are named after in the pure build
 def kernel(name, ins, outs, simd_body, pure_body, **kw):
@@ -238,6 +235,45 @@ def fp_atoms(ts):
     return [x for x in acc.values() if z3.is_app(x) and x.decl().kind() in FP_CMP]
 
 # ----------------------------------------------------------------------------- bit-precise equality by structural congruence
+_LEMMAS = {}
+_COMM = (z3.Z3_OP_FPA_ADD, z3.Z3_OP_FPA_MUL, z3.Z3_OP_FPA_EQ, z3.Z3_OP_BADD, z3.Z3_OP_BMUL, z3.Z3_OP_BAND, z3.Z3_OP_BOR, z3.Z3_OP_BXOR, z3.Z3_OP_AND, z3.Z3_OP_OR, z3.Z3_OP_EQ, z3.Z3_OP_DISTINCT)
+def _alpha_key(asserts):
+    """digest of the assertions modulo renaming of the uninterpreted constants and modulo operand order of commutative operators: constants are numbered in the order of a traversal that
+    visits commutative operands sorted by their name-blind skeleton digest (sha256 throughout)"""
+    sk = {}; keep = []
+    def sig(t):
+        d = t.decl(); return '%s|%s|%s' % (d.name(), d.params() if d.kind() not in (z3.Z3_OP_UNINTERPRETED,) and t.num_args() > 0 else '', t.sort())
+    def skel(t):
+        k = t.get_id()
+        if k in sk: return sk[k]
+        if z3.is_const(t) and t.decl().kind() == z3.Z3_OP_UNINTERPRETED: r = hashlib.sha256(('?' + str(t.sort())).encode()).digest()
+        elif t.num_args() == 0: r = hashlib.sha256(t.sexpr().encode()).digest()
+        else:
+            cs = [skel(c) for c in t.children()]
+            if t.decl().kind() in _COMM: cs.sort()
+            r = hashlib.sha256(sig(t).encode() + b''.join(cs)).digest()
+        sk[k] = r; keep.append(t); return r
+    def kids(t):
+        ch = t.children()
+        if t.decl().kind() in _COMM: ch = sorted(ch, key=skel)
+        return ch
+    names = {}; vis = set(); st = list(reversed(asserts))
+    for a_ in asserts: skel(a_)
+    while st:
+        t = st.pop()
+        if t.get_id() in vis: continue
+        vis.add(t.get_id())
+        if z3.is_const(t) and t.decl().kind() == z3.Z3_OP_UNINTERPRETED: names.setdefault(t.get_id(), 'c%d' % len(names)); continue
+        st.extend(reversed(kids(t)))
+    fu = {}
+    def full(t):
+        k = t.get_id()
+        if k in fu: return fu[k]
+        if k in names: r = hashlib.sha256((names[k] + str(t.sort())).encode()).digest()
+        elif t.num_args() == 0: r = hashlib.sha256(t.sexpr().encode()).digest()
+        else: r = hashlib.sha256(sig(t).encode() + b''.join(full(c) for c in kids(t))).digest()
+        fu[k] = r; return r
+    return b''.join(full(a_) for a_ in asserts)
 class Cong:
     """prove x == y for two executor terms under hyps.  Identical terms are equal; terms with the same operator are equal when their operands are (congruence); every other pair is a lemma for the
     solver in which the maximal subterms common to both sides are replaced by fresh constants (a generalisation: sound for 'unsat').  Besides 'eq' (bit-identical, one NaN) the relation 'zs' is tracked
@@ -245,8 +281,12 @@ class Cong:
     analysis: every zs operand is either non-zero (then it is the same value on both sides) or one of the four sign combinations of two zeros; the other operands become one fresh constant each."""
     ZP = {32: z3.FPVal(0.0, FSORT[32]), 64: z3.FPVal(0.0, FSORT[64])}
     def __init__(s, S, hyps, per_query=10.0, budget=60.0):
-        s.S = S; s.hyps = list(hyps); s.memo = {}; s.per = per_query; s.left = budget; s.lemmas = 0; s.time = 0.0; s.keep = []; s.cases = {}; s.idm = {}; s.hv = {}
-    def eq(s, x, y): return s.rel(x, y) == 'eq'
+        s.S = S; s.hyps = list(hyps); s.memo = {}; s.per = per_query; s.left = budget; s.lemmas = 0; s.time = 0.0; s.keep = []; s.cases = {}; s.idm = {}; s.hv = {}; s.timeouts = 0; s.cached = 0
+    def eq(s, x, y):
+        r = s.rel(x, y)
+        if r != 'eq' and s.timeouts and s.left > 0:       # a lemma ran out of time (machine under load?): once more with five times the slice; proven lemmas are kept
+            s.memo = {k: v for k, v in s.memo.items() if v is not None}; s.per *= 5; s.timeouts = 0; r = s.rel(x, y)
+        return r == 'eq'
     def ids(s, t):
         k = t.get_id()
         if k not in s.idm: s.idm[k] = frozenset(subterms(t))
@@ -273,15 +313,18 @@ class Cong:
         if r is None: r = s.leaf(x, y)
         s.memo[k] = r; return r
     def solve(s, goal, hyps, to=None):
-        """'unsat' | 'sat' | 'unknown'"""
-        if s.left <= 0: return 'unknown'
+        """'unsat' | 'sat' | 'unknown'.  Verdicts are cached per process modulo renaming of the uninterpreted constants (the four lanes of a vector operation yield the same lemma four times)"""
         g = z3.simplify(goal)
         if z3.is_true(g): return 'unsat'
         if z3.is_false(g) and not hyps: return 'sat'
         asserts = _cone_of_influence(list(hyps) + [z3.Not(goal)])
+        key = _alpha_key(asserts)
+        if key in _LEMMAS and _LEMMAS[key] != 'unknown': s.cached += 1; return _LEMMAS[key]
+        if s.left <= 0: return 'unknown'
         to = min(to or s.per, max(1.0, s.left)); t0 = time.time()
         sv = z3.Solver(); sv.set('timeout', int(to * 1000)); sv.add(*asserts); r = str(sv.check()); dt = time.time() - t0
-        s.left -= dt; s.time += dt; s.lemmas += 1
+        s.left -= dt; s.time += dt; s.lemmas += 1; _LEMMAS[key] = r
+        if r == 'unknown': s.timeouts += 1
         return r
     HEAVY = (z3.Z3_OP_FPA_MUL, z3.Z3_OP_FPA_DIV, z3.Z3_OP_FPA_SQRT, z3.Z3_OP_FPA_FMA, z3.Z3_OP_FPA_REM, z3.Z3_OP_BMUL, z3.Z3_OP_BUDIV, z3.Z3_OP_BSDIV, z3.Z3_OP_BUREM, z3.Z3_OP_BSREM, z3.Z3_OP_BSMOD,
              z3.Z3_OP_BUDIV_I, z3.Z3_OP_BSDIV_I, z3.Z3_OP_BUREM_I, z3.Z3_OP_BSREM_I, z3.Z3_OP_UNINTERPRETED, z3.Z3_OP_FPA_TO_FP, z3.Z3_OP_FPA_TO_SBV, z3.Z3_OP_FPA_TO_UBV, z3.Z3_OP_FPA_TO_FP_UNSIGNED)
@@ -595,11 +638,14 @@ class Pair:
         if z3.is_true(z3.simplify(goal)): return ok('identical terms (commutative operands ordered; z3 simplifier)')
         if has_regs and prop_implied(hy, goal): return ok('z3 (propositional: the compared terms are the terms of the excluded region)')
         if solver == 'z3':
+            def cong():
+                if pair is None: return False
+                cg = Cong(S, hy, per_query=S.cap(20, 40), budget=max(timeout, S.cap(240, 600)))
+                return cg.eq(*pair) and ok('z3 (structural congruence: %d lemma(s)%s, common subterms generalised)' % (cg.lemmas, ' + %d cached' % cg.cached if cg.cached else ''), cg.time)
+            if getattr(s, 'prefer_cong', False) and cong(): return True          # an earlier element of this wrapper needed the congruence route: try it first
             r, m, dt, used = S.query(list(hy) + [z3.Not(goal)], 3, 'z3', s.allvars)
             if r == 'unsat': return ok(used, dt)
-            if r == 'unknown' and pair is not None:
-                cg = Cong(S, hy, per_query=S.cap(10, 30), budget=timeout)
-                if cg.eq(*pair): return ok('z3 (structural congruence: %d lemma(s), common subterms generalised)' % cg.lemmas, cg.time)
+            if r == 'unknown' and not getattr(s, 'prefer_cong', False) and cong(): s.prefer_cong = True; return True
         if s.sp['opt']:       # kernel that no glm operation reaches: a difference is recorded (optional obligation), not reported as a violation of the property
             r, m, dt, used = S.query(list(hy) + [z3.Not(goal)], min(timeout, 20), 'z3', s.allvars)
             rec = S.rec(name=name, kind=kind, functions=s.fnlist, bounds=b2, solver=used, result=r, time_s=round(dt, 3), mandatory=False, status='discharged' if r == 'unsat' else ('kernel-differs' if r == 'sat' else 'inconclusive'))
@@ -636,6 +682,21 @@ def check_pair(S, ua, ub, fn, tag, isas):
             S.rec(name=on, kind='diff', functions=pr.fnlist, bounds=pr.binfo + ' [bit-identical]', solver='identical terms (commutative operands ordered; z3 simplifier)', result='unsat', time_s=0.0, status='discharged', mandatory=mand)
         else: rest.append(el + (x, y))
     if not rest: return
+    # ---- structure: rcpps / rsqrtps (uninterpreted x86_rcp / x86_rsqrt in the terms) may feed lowp results only
+    def approx_of(t): return sorted({u.decl().name() for u in subterms(t).values() if z3.is_app(u) and u.num_args() > 0 and u.decl().kind() == z3.Z3_OP_UNINTERPRETED and u.decl().name().startswith('x86_r')})
+    if not fn.endswith('_lp'):
+        bad = [el for el in rest if approx_of(el[7])]
+        if bad:
+            info = {'unit': ua.name, 'unit_b': ub.name, 'fn': fn, 'note': 'x86 approximation intrinsic %s feeds the non-lowp result(s) %s' % (approx_of(bad[0][7]), [el[3] for el in bad][:8]), 'pin_name': pr.nm}
+            try:       # a concrete input on which the two builds differ (for the report; the structural fact alone already contradicts the property)
+                for tup in sample_inputs(pr.fa, S.rnd, 12):
+                    v, inf = pr.replay_vals(tup, None, None)
+                    if v == 'reproduced': info.update(inf); break
+            except Exception: pass
+            S.rec(name=pr.nm + '.no-approx', kind='structure', functions=pr.fnlist, bounds=pr.binfo, solver='term DAG inspection', result='sat', time_s=0.0, status='counterexample', mandatory=mand, note=info['note'], replay_info=info)
+            if mand: S.violations.append((pr.nm + '.no-approx', info))
+            pr.approx_bad = True; rest = [el for el in rest if not approx_of(el[7])]
+            if not rest: return
     if cls == 'ident':
         for oi, i, c, on, a, b, x, y in rest:
             pr.prove_eq(on, x, y, oi, i, solver='portfolio' if fn.startswith('idiv') else 'z3')
@@ -680,11 +741,7 @@ def check_pair(S, ua, ub, fn, tag, isas):
             S.prove(vname(on, 'real'), ea == eb, hy, timeout=S.cap(40, 120), solver='z3', kind='diff', functions=pr.fnlist, bounds=b2, replay=rp, mandatory=mand)
         if lowp:
             S.rec(name=pr.nm + '.approx-only-lowp', kind='structure', functions=pr.fnlist, bounds=pr.binfo, solver='term DAG inspection', result='unsat', time_s=0.0, status='discharged', mandatory=mand, note='lowp result; approximation intrinsics reachable: %s' % (sorted(E.approx_ufs) or 'none'))
-        elif E.approx_ufs:
-            S.rec(name=pr.nm + '.no-approx', kind='structure', functions=pr.fnlist, bounds=pr.binfo, solver='term DAG inspection', result='sat', time_s=0.0, status='counterexample', mandatory=mand,
-                  note='hardware approximation %s reachable from a non-lowp result' % sorted(E.approx_ufs))
-            S.violations.append((pr.nm + '.no-approx', {'unit': ua.name, 'unit_b': ub.name, 'fn': fn, 'note': 'x86 approximation intrinsic %s feeds a non-lowp result' % sorted(E.approx_ufs)}))
-        else:
+        elif not getattr(pr, 'approx_bad', False):
             S.rec(name=pr.nm + '.no-approx', kind='structure', functions=pr.fnlist, bounds=pr.binfo, solver='term DAG inspection', result='unsat', time_s=0.0, status='discharged', mandatory=mand,
                   note='no rcp/rsqrt approximation intrinsic reachable from the results')
     if sp['dec']: check_decisions(S, pr, rest)
@@ -731,6 +788,9 @@ def check_lowp(S, pr, rest):
             pr.prove_eq(on, x, y, oi, i); continue
         hy = list(E.axioms) + ([z3.Not(z3.Or(*E.domain))] if E.domain else []) + ax + pos
         d = ea - eb; goal = z3.And(d <= TOL * z3.If(ea >= 0, ea, -ea), -d <= TOL * z3.If(ea >= 0, ea, -ea))
+        if not S.quick:      # vacuity guard: the same claim with a bound below the contract (2^-13) must be refutable
+            t2 = z3.RealVal('1/8192') * z3.If(ea >= 0, ea, -ea)
+            S.prove(vname(on, 'lowp-twin'), z3.And(d <= t2, -d <= t2), hy, timeout=60, solver='z3', kind='mutant-twin', functions=pr.fnlist, bounds='2^-13 instead of 2^-11', expect='sat', mandatory=False)
         S.prove(vname(on, 'lowp'), goal, hy, timeout=S.cap(40, 120), solver='z3', kind='lowp-accuracy', functions=pr.fnlist,
                 bounds=pr.binfo + ' [rounding-erased; rcpps/rsqrtps per SDM: relative error <= 1.5*2^-12 on positive arguments; claim: |simd - pure| <= 2^-11 |pure|; approximated arguments > 0]')
     S.rec(name=pr.nm + '.approx-only-lowp', kind='structure', functions=pr.fnlist, bounds=pr.binfo, solver='term DAG inspection', result='unsat', time_s=0.0, status='discharged', mandatory=True, note='approximation intrinsics occur in a lowp result only')
@@ -773,8 +833,15 @@ def jobs(tier):
                 tasks.append((w, (fn, wx, rep, group, key)))
     nb = 28 if tier == 'quick' else 42
     bins = [[0.0, []] for _ in range(nb)]
-    for w, t in sorted(tasks, key=lambda x: -x[0]):
-        b = min(bins, key=lambda b_: b_[0]); b[0] += w; b[1].append(t)
-    return [('g%02d.%s' % (gi, '+'.join(sorted({t[0] for t in b[1]}))[:70]), job_tasks(b[1])) for gi, b in enumerate(bins) if b[1]]
+    # the SSE2 magic-number rounding lemmas (floor/ceil/round vs roundToIntegral) are shared by the highp/mediump/lowp instances and by fract (floor): one job per family, so the per-process lemma cache serves them
+    fam = {}
+    for w, t in tasks:
+        m = re.match(r'(floor|fract|ceil|mod|round)4_f', t[0])
+        if m and t[2] == 'sse2': fam.setdefault({'fract': 'floor'}.get(m.group(1), m.group(1)), []).append((w, t))
+    famtasks = {id(t) for ts in fam.values() for w, t in ts}
+    for k, ts in fam.items():
+        b = min(bins, key=lambda b_: b_[0]); b[0] += max(w for w, t in ts) * 1.5; b[1] += [t for w, t in ts]
+    tasks = [(w, t) for w, t in tasks if id(t) not in famtasks]
+    return [('g%02d.%s' % (gi, ','.join(sorted({t[0] for t in b[1]}))[:70]), job_tasks(b[1])) for gi, b in enumerate(bins) if b[1]]       # names must be regex-safe (--only / --replay)
 JOB_CAP = {'quick': 600, 'thorough': 3600}
 def PROGRAMS(recs): return len({tuple(x['name'].split('.')[1:3]) for x in recs if x.get('kind') in ('diff', 'decision', 'lowp-accuracy')})
